@@ -461,3 +461,59 @@ impl DenseProblem {
         }
     }
 }
+
+// ---------------------------------------------------------------------
+// serde helpers: JSON has no inf/nan, so non-finite floats are written as strings
+// ---------------------------------------------------------------------
+pub mod serde_f64 {
+    use serde::{Deserialize, Deserializer, Serializer};
+    pub fn serialize<S: Serializer>(v: &f64, s: S) -> Result<S::Ok, S::Error> {
+        if v.is_finite() {
+            s.serialize_f64(*v)
+        } else if v.is_nan() {
+            s.serialize_str("nan")
+        } else if *v > 0.0 {
+            s.serialize_str("inf")
+        } else {
+            s.serialize_str("-inf")
+        }
+    }
+    pub fn from_value<E: serde::de::Error>(v: &serde_json::Value) -> Result<f64, E> {
+        match v {
+            serde_json::Value::Number(n) => n.as_f64().ok_or_else(|| E::custom("bad number")),
+            serde_json::Value::String(s) => match s.as_str() {
+                "inf" => Ok(f64::INFINITY),
+                "-inf" => Ok(f64::NEG_INFINITY),
+                "nan" => Ok(f64::NAN),
+                _ => Err(E::custom("bad float string")),
+            },
+            _ => Err(E::custom("bad float")),
+        }
+    }
+    pub fn deserialize<'de, D: Deserializer<'de>>(d: D) -> Result<f64, D::Error> {
+        let v = serde_json::Value::deserialize(d)?;
+        from_value(&v)
+    }
+}
+
+pub mod serde_vecf64 {
+    use serde::ser::SerializeSeq;
+    use serde::{Deserialize, Deserializer, Serializer};
+    struct W(f64);
+    impl serde::Serialize for W {
+        fn serialize<S: Serializer>(&self, s: S) -> Result<S::Ok, S::Error> {
+            super::serde_f64::serialize(&self.0, s)
+        }
+    }
+    pub fn serialize<S: Serializer>(v: &[f64], s: S) -> Result<S::Ok, S::Error> {
+        let mut seq = s.serialize_seq(Some(v.len()))?;
+        for x in v {
+            seq.serialize_element(&W(*x))?;
+        }
+        seq.end()
+    }
+    pub fn deserialize<'de, D: Deserializer<'de>>(d: D) -> Result<Vec<f64>, D::Error> {
+        let v = Vec::<serde_json::Value>::deserialize(d)?;
+        v.iter().map(super::serde_f64::from_value).collect()
+    }
+}
